@@ -8,6 +8,8 @@ import (
 	"os"
 	"sort"
 	"strings"
+
+	stackage "github.com/JesseCoretta/go-stackage"
 )
 
 func die(code int, f string, a ...any) {
@@ -157,6 +159,7 @@ func main() {
 	if len(os.Args) < 2 {
 		die(2, "usage: harness <cmd> ...")
 	}
+	prelude()
 	switch os.Args[1] {
 	case "table":
 		cmdTable(os.Args[2:])
@@ -168,6 +171,23 @@ func main() {
 			return
 		}
 		die(2, "unknown command %s", os.Args[1])
+	}
+}
+
+// prelude: before anything is measured, every awkward value (typed nil pointers to every alias type, zero aliases, foreign
+// values ...) is offered once to the package-level converters.  A package that remembers anything about the values it has seen
+// (a type cache, a pooled buffer) has seen the worst of them by the time the cases run; a correct one is unaffected.
+func prelude() {
+	vals := awkwardCatalogue()
+	vals = append(vals, named{"typednil-*WStack", (*WStack)(nil)}, named{"typednil-*XStack", (*XStack)(nil)},
+		named{"typednil-*WCond", (*WCond)(nil)}, named{"typednil-*XCond", (*XCond)(nil)},
+		named{"zero-WStack", WStack{}}, named{"zero-XStack", XStack{}}, named{"zero-ACond", ACond{}}, named{"zero-WCond", WCond{}}, named{"zero-XCond", XCond{}})
+	for _, nv := range vals {
+		func() {
+			defer func() { _ = recover() }()
+			_, _ = stackage.ConvertStack(nv.v)
+			_, _ = stackage.ConvertCondition(nv.v)
+		}()
 	}
 }
 
